@@ -25,8 +25,10 @@ def run(tier, seed):
             s = authcat.Scn("ES256-P256" if f % 7 else "EdDSA")
             s.flags = f
             s.require_uv = ruv
+            if f & 0x40 and (f // 2 + ruv) % 2:
+                s.at_cred_id = b"some-other-credential"       # AT in an assertion: attested data follows - whose, is not a flag matter
             if f & 0x80:           # ED: "extension data follows" - any CBOR map, the empty one included
-                s.ext = (None, b"\xa0", b"\xa1\x68credBlob\x58\x20" + bytes(32))[(f // 4 + ruv) % 3]
+                s.ext = (None, b"\xa0", b"\xa1\x68credBlob\x58\x20" + bytes(32), b"\xa1\x63uvm\x81\x83\x02\x04\x02")[(f // 4 + ruv) % 4]
             pol, a = s.build()
             a.attachment = (None, "platform", "cross-platform")[(f // 2 + ruv) % 3]        # a client hint: no influence on any reported field
             exp = table_auth(f, ruv)
